@@ -19,8 +19,8 @@ local macro "fin " x:term : tactic =>
 
 /-- **Refinement, one operation.**  From a well-formed state, every operation leaves the model in a state
     whose abstraction is what the list+multimap specification computes, and returns the same value / raises the
-    same exception class.  (`OpOk` only constrains a `ParseResults` argument of `+=`/`extend`, see `OtherOk`.) -/
-theorem refines_step (s : PR α) (op : Op α (PR α)) (h : PRInv s) (hok : OpOk s op) :
+    same exception class.  (`OpOk op` only says that a `ParseResults` *argument* of `+=`/`extend` is itself well formed.) -/
+theorem refines_step (s : PR α) (op : Op α (PR α)) (h : PRInv s) (hok : OpOk op) :
     abs (step s op).1 = (specStep (abs s) (op.map abs)).1 ∧
     (step s op).2 = (specStep (abs s) (op.map abs)).2 := by
   have hk : ∀ n, dhas s.dict n = true ↔ n ∈ (abs s).order := fun n => dhas_iff s.dict n
@@ -224,23 +224,22 @@ theorem prinv_step (s : PR α) (op : Op α (PR α)) (h : PRInv s) : PRInv (step 
   | items => simp only [step]; split <;> exact h
   | haskeys => exact h
 
-/-- a history is admissible when every `ParseResults` argument met on the way satisfies `OtherOk`
-    in the state it is used in -/
-def Admissible : PR α → List (Op α (PR α)) → Prop
-  | _, [] => True
-  | s, op :: ops => OpOk s op ∧ Admissible (step s op).1 ops
+/-- a history is admissible when every `ParseResults` argument in it is a well-formed object
+    (a condition on the arguments only, not on the states passed through) -/
+def Admissible (ops : List (Op α (PR α))) : Prop := ∀ op ∈ ops, OpOk op
 
 /-- **Refinement, all histories.**  Any finite sequence of operations from a well-formed state: the final
     abstract state and the whole sequence of return values / exception classes are those of the plain list +
     ordered multimap put through the same operations. -/
-theorem refines_history (ops : List (Op α (PR α))) (s : PR α) (h : PRInv s) (hadm : Admissible s ops) :
+theorem refines_history (ops : List (Op α (PR α))) (s : PR α) (h : PRInv s) (hadm : Admissible ops) :
     abs (run s ops).1 = (specRun (abs s) (ops.map (Op.map abs))).1 ∧
     (run s ops).2 = (specRun (abs s) (ops.map (Op.map abs))).2 ∧
     PRInv (run s ops).1 := by
   induction ops generalizing s with
   | nil => exact ⟨rfl, rfl, h⟩
   | cons op ops ih =>
-    obtain ⟨hop, hrest⟩ := hadm
+    have hop : OpOk op := hadm op (by simp)
+    have hrest : Admissible ops := fun o ho => hadm o (List.mem_cons_of_mem _ ho)
     obtain ⟨h1, h2⟩ := refines_step s op h hop
     obtain ⟨i1, i2, i3⟩ := ih (step s op).1 (prinv_step s op h) hrest
     simp only [run, specRun, List.map_cons]
@@ -257,9 +256,11 @@ def exOps : List (Op String (PR String)) :=
    .getSlice ⟨none, none, some (-2)⟩, .delSlice ⟨some 0, none, some 2⟩, .pop0, .popInt 7 none, .getAttr "nope", .items]
 
 example : PRInv exS := ⟨by decide, by decide⟩
-example : Admissible exS exOps := by
-  refine ⟨trivial, trivial, trivial, ⟨⟨by decide, by decide⟩, Or.inl rfl⟩, ?_⟩
-  simp [Admissible, OpOk]
+example : Admissible exOps := by
+  intro op hop
+  simp only [exOps, List.mem_cons, List.not_mem_nil, or_false] at hop
+  rcases hop with h | h | h | h | h | h | h | h | h | h | h | h | h <;> subst h <;>
+    first | trivial | exact ⟨by decide, by decide⟩
 example : (run exS exOps).1.toks = ["i"] := by decide +kernel
 example : ((run exS exOps).2.drop 4).take 3 =
     [.view (.many ["a", "b", "c"]), .view (.one "1"), .val "d"] := by decide +kernel
@@ -307,6 +308,44 @@ theorem prinv_of_reinit (mk : List α → α) (s : PR α) (name : Option String)
       · split
         · exact prinv_setOcc (hm _ _ _) _ _
         · exact hm _ _ _
+
+/-- **Naming an existing result** refines the specification: one more value for the name, list-all iff not modal,
+    all other names and list-all flags untouched (pyparsing aa3fe24; before it a list-all name *replaced* the set). -/
+theorem reinit_refines (mk : List α → α) (s : PR α) (name : Option String) (asList modal : Bool) :
+    abs (reinit mk s name asList modal) = (abs s).reinit mk name asList modal := by
+  have hla : ∀ (nm : String) (t : List α) (d : Dict (List (α × Int))),
+      abs ({ toks := t, dict := d,
+             all := if modal then s.all else (if nm ∈ s.all then s.all else s.all ++ [nm]),
+             name := some nm, modal := modal } : PR α)
+      = { toks := t, order := dkeys d, vals := fun k => ((dget d k).getD []).map (·.1),
+          la := fun k => (abs s).la k || (!modal && decide (k = nm)) } := by
+    intro nm t d
+    refine Abs.ext' rfl rfl (fun _ => rfl) (fun k => ?_)
+    simp only [abs]
+    cases modal
+    · by_cases h1 : nm ∈ s.all <;> by_cases h2 : k = nm <;> by_cases h3 : k ∈ s.all <;> simp_all
+    · simp
+  unfold reinit Abs.reinit
+  cases name with
+  | none => rfl
+  | some nm =>
+    simp only
+    by_cases hn : nm = ""
+    · simp only [hn, if_true]; rfl
+    · simp only [hn, if_false]
+      cases asList
+      · simp only [Bool.false_eq_true, if_false]
+        cases ht : s.toks with
+        | nil =>
+          have : (abs s).toks = [] := ht
+          simp only [this]
+          rw [← ht]; exact hla nm s.toks s.dict
+        | cons v vs =>
+          have : (abs s).toks = v :: vs := ht
+          simp only [this]
+          rw [abs_setOcc, ← ht, hla nm s.toks s.dict]; rfl
+      · simp only [if_true]
+        rw [abs_setOcc, hla nm s.toks s.dict]; rfl
 
 example : ∃ s, ctor (fun v => v ++ "!") (.list ["a", "b"]) (some "n") true false = .ok s ∧ s.all = ["n"] ∧
     (step s (.getName "n")).2 = .view (.many ["a!"]) := ⟨_, rfl, rfl, by decide +kernel⟩
@@ -421,35 +460,20 @@ example : step exS (.getAttr "nope") = (exS, .empty) := unknown_attr_empty exS "
 
 /-! ### where the code leaves the list + multimap reading -/
 
-/-- **The exact side condition of `+=`.**  For well-formed `s`, `o`: `s += o` is the merge of the two results
-    *iff* `o` is truthy or every list-all name of `o` is already list-all in `s`.  (`__iadd__` returns early on a
-    falsy `other` and so drops the list-all names such an empty result carries.) -/
-theorem iadd_refines_iff (s o : PR α) (ho : PRInv o) :
-    abs (iadd s o) = (abs s).merge (abs o) ↔ (o.truthy = true ∨ ∀ n ∈ o.all, n ∈ s.all) := by
-  constructor
-  · intro heq
-    cases ht : o.truthy with
-    | true => exact Or.inl rfl
-    | false =>
-      right
-      intro n hn
-      rw [iadd_eq, ht] at heq
-      simp only [Bool.false_eq_true, if_false] at heq
-      have := congrFun (congrArg Abs.la heq) n
-      simp only [abs, Abs.merge, hn, decide_true, Bool.or_true, decide_eq_true_eq] at this
-      exact this
-  · intro h; exact abs_iadd s o ⟨ho, h⟩
+/-- **`+=` is the merge of list and multimap for every well-formed argument**, empty or not (since pyparsing
+    448d339; before it `__iadd__` returned early on a falsy `other` and dropped the list-all names it carried). -/
+theorem iadd_is_merge (s o : PR α) (ho : PRInv o) : abs (iadd s o) = (abs s).merge (abs o) :=
+  abs_iadd s o ho
 
-/-- the excluded point, concretely: `x` is an ordinary name of `s`; `o` is an empty result that carries the
-    list-all flag for `x` (what `Opt(...)("x*")` returns when it matches nothing).  After `s += o` the code answers
-    `s["x"]` with the last value, the multimap reading with the list of all values.  (Replayed on the real class by
-    harness/props/c10.py: registered finding `iadd_falsy_other_drops_listall`.) -/
-theorem iadd_falsy_shortcut_deviates :
-    ∃ s o : PR String, PRInv s ∧ PRInv o ∧
-      (step (step s (.iadd o)).1 (.getName "x")).2 = .view (.one "b") ∧
+/-- the formerly excluded point (regression witness of finding `iadd_falsy_other_drops_listall`, fixed): `x` is an
+    ordinary name of `s`; `o` is an empty result carrying the list-all flag of `x` (what `Opt(...)("x*")` returns when
+    it matches nothing).  After `s += o`, model and specification both answer `s["x"]` with the list of all values. -/
+theorem iadd_falsy_keeps_listall :
+    ∃ s o : PR String, PRInv s ∧ PRInv o ∧ o.truthy = false ∧
+      (step (step s (.iadd o)).1 (.getName "x")).2 = .view (.many ["b"]) ∧
       (specStep (specStep (abs s) (.iadd (abs o))).1 (.getName "x")).2 = .view (.many ["b"]) :=
   ⟨{ toks := ["b"], dict := [("x", [("b", 0)])], all := [] }, { toks := [], dict := [], all := ["x"] },
-   ⟨by decide, by decide⟩, ⟨by decide, by decide⟩, by decide +kernel, by decide +kernel⟩
+   ⟨by decide, by decide⟩, ⟨by decide, by decide⟩, by decide, by decide +kernel, by decide +kernel⟩
 
 /-- the statement lists `in` among the *list* operations; the class implements (and documents) it as *name*
     membership: a token that is not a name is not `in` the result.  The specification follows the code here. -/
